@@ -24,7 +24,7 @@ import fixtures
 import incgraph
 import rel
 import textfn
-from common import Check, b64, harness, seed, unb64
+from common import Check, b64, harness, seed, tlc, tlc_ok, unb64
 
 
 def single_convention(s):
@@ -257,6 +257,59 @@ def main(tier):
             chk.violation("undefined type named at bytes %d..%d, but the diagnostic %r is at %s byte %d (line %d) | document:\n%s" % (
                 lo, hi, e["msg"], e["file"], e["index"], e["line"], text),
                 {"kind": "path_fault", "variant": "mutual_types", "file": text, "span": [lo, hi], "observed": o, "signature": sig}, sig)
+    # tree documents with file boundaries (JSightTree, INCLUDE nesting <= 2): every diagnostic raised inside an included
+    # file - whatever raises it: scanner, placement, end-of-file check, JSIGHT rule - carries the chain of INCLUDE lines
+    import c06
+    import render
+    tcases, tmeta = [], {}
+    for vo, ml, sdx in (("FALSE", "12", 31), ("TRUE", "16", 32)):
+        c = dict(c06.CONST_NONE, History="TRUE", MaxLen=ml, EmitMode='"docs"', ValidOnly=vo, MaxInc="2", OneKw="TRUE")
+        r = tlc_ok(tlc("JSightTree", "Tree_docs.cfg", consts=c, simulate=4000 if thorough else 400, depth=int(ml) + 8, tlc_seed=seed() + sdx,
+                       workers=8 if thorough else 4, timeout=3000), "JSightTree walks with file boundaries")
+        chk.add_tlc(r)
+        for m in r.mbt:
+            if not any(it["t"] == "fb" for it in m["doc"]):
+                continue
+            files, spans = render.render_tree_project(m["doc"])
+            cid = "tb%d" % len(tcases)
+            tcases.append({"id": cid, "files": {f: b64(t) for f, t in files.items()}, "root": "main.jst"})
+            tmeta[cid] = (m["doc"], files, spans)
+    tobs = harness("run", tcases)
+    located_in_include = 0
+    for cid, (doc, files, spans) in tmeta.items():
+        o = tobs[cid]
+        chk.evaluations += 1
+        if o["outcome"] != "error" or o["err"]["file"] == "main.jst" or o["err"]["file"] not in files:
+            continue
+        chk.traces += 1
+        located_in_include += 1
+        chk.nontrivial.add(json.dumps(doc))
+        opener, stack = {}, ["main.jst"]
+        for i, it in enumerate(doc, 1):
+            if it["t"] == "fb":
+                f, b, _ = spans[i]
+                opener["inc%d.jst" % i] = (f, files[f][:b].count(b"\n") + 1)
+                stack.append("inc%d.jst" % i)
+            elif it["t"] == "fe" and len(stack) > 1:
+                stack.pop()
+        want, f = [], o["err"]["file"]
+        while f in opener:
+            want.append([opener[f][0], str(opener[f][1])])
+            f = opener[f][0]
+        got = [list(x) for x in o["err"].get("trace") or []]
+        if got != want:
+            detail = "tree-document"
+            for (gf, gl), (wf, wl) in zip(got, want):
+                if (gf, gl) != (wf, wl):
+                    if gf == wf and gl.isdigit() and int(gl) < int(wl) and len(got) == len(want):
+                        detail = "line-of-an-earlier-include"       # finding F-07: the tracer cache is keyed by the including file only
+                    break
+            sig = {"what": "trace", "detail": detail, "msg": o["err"]["msg"][:40]}
+            shown = "\n".join("--- %s\n%s" % (ff, t.decode()) for ff, t in files.items())
+            chk.violation("diagnostic %r in %s: include trace %s, the chain of INCLUDE lines is %s | project:\n%s" % (
+                o["err"]["msg"], o["err"]["file"], got, want, shown[:900]),
+                {"kind": "tree_trace", "case": tcases[int(cid[2:])], "doc": doc, "expected_trace": want, "observed": o, "signature": sig}, sig)
+    chk.extra["tree_documents_with_diagnostic_in_included_file"] = located_in_include
     # include graphs enumerated by TLC (spec/JSightInclude.tla), replayed with the file-operation hook on
     incgraph.run(chk, tier, "C02")
     chk.rule = ("location table: all single-convention contents <= %d x all indices; rejected runs of fixtures, TLC-generated "
